@@ -76,13 +76,25 @@ class _TabulationCutoff(object):
       cutoff = (nr-1)*dr      
     elif not cutoff is None and not dr is None:
       # Set nr
-      nr = (cutoff/dr) + 1
-      nr = int(nr)
+      nr = self._rows_for_step(cutoff, dr)
     elif not dr is None:
       raise ConfigParserException("'{dr}' cannot be specified without either '{nr}' or '{cutoff}' in [Tabulation] section of potential definition.".format(**self._template_dict))
 
     self._check_positive(nr, dr, cutoff)
     return nr, cutoff
+
+  @staticmethod
+  def _rows_for_step(cutoff, dr):
+    """Number of rows needed to go from 0 to `cutoff` in steps of `dr`.
+
+    When `cutoff` is a whole multiple k of `dr` this is k+1. The quotient of the two binary floating point numbers
+    standing for the decimal values typed by the user can land just below k (e.g. 0.043/0.001), so a quotient lying within
+    rounding error of a whole number is taken to be that number; otherwise the quotient is truncated as before."""
+    q = cutoff/dr
+    nearest = round(q)
+    if abs(q - nearest) <= 1e-9 * max(1.0, abs(q)):
+      return int(nearest) + 1
+    return int(q + 1)
 
   def _check_positive(self, nr, dr, cutoff):
     if not nr is None and nr <= 0:
